@@ -163,6 +163,131 @@ def stage_backrefs(ctx: Ctx):
                 break
 
 
+# ---- nested quantifiers (atomic repetitions) ---------------------------------------------------------------------------
+
+NHDR = ('From Coq Require Import List Bool Arith.\nFrom PF Require Import models.Match models.MatchNested.\nImport ListNotations.\n'
+        'Fixpoint ln_eqb (a b : list nat) : bool := match a, b with [], [] => true | x :: a\', y :: b\' => Nat.eqb x y && ln_eqb a\' b\' | _, _ => false end.\n'
+        'Fixpoint lln_eqb (a b : list (list nat)) : bool := match a, b with [], [] => true | x :: a\', y :: b\' => ln_eqb x y && lln_eqb a\' b\' | _, _ => false end.\n'
+        'Definition olln_eqb (a b : option (list (list nat))) : bool := match a, b with None, None => true | Some x, Some y => lln_eqb x y | _, _ => false end.\n'
+        'Definition run (items : list nitem) (tgt : list nat) := option_map fst (nmatch items false tgt).\n')
+NQS = ((0, None), (1, None), (0, 1), (1, 2), (0, 2), (2, 3))
+
+
+def gen_nitems(rng, depth, n):
+    out = []
+    for _ in range(n):
+        if depth and rng.random() < 0.55:
+            mn, mx = rng.choice(NQS)
+            out.append(('q', mn, mx, rng.random() < 0.5, gen_nitems(rng, depth - 1, rng.choice((1, 1, 2, 3)))))
+        else:
+            out.append(('e', rng.choice('ab.')))
+    return out
+
+
+def n_coq(items):
+    ep = lambda ch: 'EAny' if ch == '.' else f'ELit {LETTERS.index(ch)}'
+    return '[' + '; '.join(f'NElem ({ep(it[1])})' if it[0] == 'e' else f'NQ {it[1]} {copt(it[2], str)} {cbool(it[3])} {n_coq(it[4])}' for it in items) + ']'
+
+
+def n_regex(items, top=True):
+    s = ''
+    for it in items:
+        if it[0] == 'e':
+            s += it[1]
+        else:
+            _, mn, mx, g, sub = it
+            body = f'(?:(?>{n_regex(sub, False)})){{{mn},{"" if mx is None else mx}}}{"" if g else "?"}'
+            s += f'({body})' if top else body
+    return s
+
+
+def n_pat(items, top=True):
+    from fst.match import MName, MQ
+    out, k = [], 0
+    for it in items:
+        if it[0] == 'e':
+            out.append(... if it[1] == '.' else MName(it[1]))
+        else:
+            _, mn, mx, g, sub = it
+            cls = MQ if g else MQ.NG
+            inner = n_pat(sub, False)
+            if len(sub) == 1 and sub[0][0] == 'e' and k % 2:
+                inner = inner[0]           # a single element pattern may be given without the list
+            out.append(cls(min=mn, max=mx, **{f'q{k}': inner}) if top else cls(inner, min=mn, max=mx))
+            k += 1
+    return out
+
+
+def n_wf(items):
+    def min_len(it):
+        return 1 if it[0] == 'e' else it[1] * sum(map(min_len, it[4]))
+    return all(it[0] == 'e' or ((it[1] <= it[2] if it[2] is not None else sum(map(min_len, it[4])) > 0) and n_wf(it[4])) for it in items)
+
+
+def stage_nested(ctx: Ctx):
+    """quantifiers whose repeated sub-list contains quantifiers: real matcher vs the regular expression in which every repetition is an ATOMIC group
+    (the documented "backtracking doesn't mix with the parent quantifier") and vs models/MatchNested.v (accept/reject + the length of every repetition
+    of every top-level quantifier); the constructor's refusal of unbounded possibly-empty sub-lists vs wf_items."""
+    import fst
+    from fst.match import MList
+    rng = ctx.rng
+    targets = [''.join(t) for n in range(0, 7) for t in itertools.product('ab', repeat=n)]
+    trees = {t: fst.FST('[' + ', '.join(t) + ']', 'expr') for t in targets}
+    terms, meta, wterms, wmeta = [], [], [], []
+    for it_no in range(ctx.scale(260, 4000)):
+        items = gen_nitems(rng, rng.choice((1, 2, 2, 3)), rng.choice((1, 2, 3)))
+        if not any(it[0] == 'q' and any(s[0] == 'q' for s in it[4]) for it in items) and rng.random() < 0.7:
+            continue
+        desc = {'pattern': items}
+        try:
+            pat = MList(elts=n_pat(items))
+            built = True
+        except ValueError as e:
+            built = False
+        wterms.append(f'Bool.eqb (wf_items {n_coq(items)}) {cbool(built)}')
+        wmeta.append({**desc, 'constructor_accepts': built})
+        if built != n_wf(items):
+            ctx.violation('quant-constructor', 'the MQ constructor accepts / refuses a nested quantifier differently from "min <= max and an unbounded repetition cannot be empty"',
+                          {**desc, 'constructor_accepts': built})
+            continue
+        if not built:
+            continue
+        rxs = n_regex(items)
+        rx = re.compile(rxs)
+        tops = [it for it in items if it[0] == 'q']
+        for t in (targets if ctx.thorough else rng.sample(targets, 24)):
+            try:
+                m = pat.match(trees[t])
+            except Exception as e:
+                ctx.violation(f'nested-raise|{type(e).__name__}', 'matching raised', {**desc, 'target': t, 'error': repr(e)[:200]})
+                break
+            rm = rx.fullmatch(t)
+            ctx.tick((rxs, t), 'nested:' + ('accept' if rm else 'reject'))
+            d = {**desc, 'regex': rxs, 'target': t}
+            if (m is None) != (rm is None):
+                ctx.violation(f'nested-accept|{rxs}|{t}', 'nested quantifier pattern accepts/rejects differently from the regular expression with atomic repetitions',
+                              {**d, 'fst_matches': m is not None, 're_matches': rm is not None})
+                break
+            lens = None
+            if m is not None:
+                lens = [[len(x.matched) if isinstance(x.matched, list) else 1 for x in m.tags[f'q{k}']] for k in range(len(tops))]
+                rtot = [len(rm.group(k + 1)) for k in range(len(tops))]
+                if [sum(l) for l in lens] != rtot:
+                    ctx.violation(f'nested-capture|{rxs}|{t}', 'what the top-level quantifiers consumed differs from the regular expression (priority of alternatives)',
+                                  {**d, 'fst_lens': lens, 're_totals': rtot})
+                    break
+            exp = 'None' if lens is None else '(Some [' + '; '.join('[' + '; '.join(map(str, l)) + ']' for l in lens) + '])'
+            terms.append(f'olln_eqb (run {n_coq(items)} [{"; ".join(str(LETTERS.index(c)) for c in t)}]) {exp}')
+            meta.append({**d, 'real_lens': lens})
+    if meta:
+        ctx.sample({'nested_quantifier_case': meta[len(meta) // 2]})
+    failed = coq_eval_bools('C17_n', NHDR, terms, shard=3000)
+    ctx.correspondence('models/MatchNested.v nmatch == real list matching with nested quantifiers (accept/reject + length of every repetition of every top-level quantifier)',
+                       len(terms), [meta[i] for i in failed])
+    failed = coq_eval_bools('C17_w', NHDR, wterms, shard=3000)
+    ctx.correspondence('models/MatchNested.v wf_items == the MQ constructor accepting the nested pattern', len(wterms), [wmeta[i] for i in failed])
+
+
 # ---- search / structure ------------------------------------------------------------------------------------------------
 
 def pattern_pool():
@@ -282,6 +407,7 @@ def run(ctx: Ctx):
         ctx.build_props()
     run_guarded(ctx, stage_quantifiers)
     run_guarded(ctx, stage_backrefs)
+    run_guarded(ctx, stage_nested)
     progs = corpus(ctx.rng, gen=ctx.scale(6, 60))
     run_guarded(ctx, stage_search, progs)
     run_guarded(ctx, stage_structure, [p for p in progs if len(p) < 1200])
